@@ -305,3 +305,62 @@ _ea = [c for c in BY_PROP["C15"] if c.target.endswith("Aliases.eval_alias")][0]
 _ea.replay = _eval_alias_replay
 _ea.native_domain = _eval_alias_domain
 _ea.native_env = _alias_native_env
+
+
+# ---- bounded stand-in: return_command aliases through the real Aliases.get (each alias body runs at most once per chain) ----------------
+def return_command_chains(tier, seed):
+    """alias tables over the names {a, b, c} where each alias is a list alias or a return_command alias whose command starts with any of the
+    names (itself included) or with a plain word: Aliases.get terminates, runs no alias body twice in one chain and keeps the user's arguments last"""
+    import itertools
+    from xonsh.aliases import Aliases
+    from xonsh.built_ins import XSH
+    from xonsh.environ import Env
+
+    saved = XSH.env
+    XSH.env = Env(HOME="/tmp")
+    failures, n, samples = [], 0, []
+    names = ["a", "b", "c"] if tier != "quick" else ["a", "b"]
+    heads = names + ["tool"]
+    kinds = ["list", "rc"]
+    try:
+        for combo in itertools.product(itertools.product(kinds, heads), repeat=len(names)):
+            for start in names:
+                n += 1
+                ales = Aliases()
+                calls = {}
+                for nm, (kind, head) in zip(names, combo):
+                    if kind == "list":
+                        ales[nm] = [head, "own-" + nm]
+                    else:
+                        def _mk(nm=nm, head=head):
+                            def fn(args):
+                                calls[nm] = calls.get(nm, 0) + 1
+                                return [head, "own-" + nm] + args
+                            return fn
+                        ales.register(nm)(ales.return_command(_mk()))
+                obs = None
+                try:
+                    got = ales.get([start, "U1", "U2"])
+                    twice = {k: v for k, v in calls.items() if v > 1}
+                    if twice:
+                        obs = "alias bodies run more than once in one chain: %r (result %r)" % (twice, got)
+                    elif got is not None and (len(got) < 2 or list(got[-2:]) != ["U1", "U2"] or list(got).count("U1") != 1):
+                        obs = "the user's arguments are not last / not once: %r" % (got,)
+                    elif got is not None and sum(1 for w in got if isinstance(w, str) and w.startswith("own-")) != len({w for w in got if isinstance(w, str) and w.startswith("own-")}):
+                        obs = "an alias's own argument appears twice: %r" % (got,)
+                except RecursionError:
+                    obs = "RecursionError (the expansion does not terminate)"
+                except Exception as e:  # noqa
+                    obs = "%s: %s" % (type(e).__name__, e)
+                if obs and len(failures) < 5:
+                    failures.append({"clause": "each alias at most once per chain, the user's arguments last", "inputs": {"aliases": {nm: list(c) for nm, c in zip(names, combo)}, "command": [start, "U1", "U2"]}, "observed": obs})
+                elif not obs and len(samples) < 3 and combo[0][0] == "rc":
+                    samples.append({"aliases": {nm: list(c) for nm, c in zip(names, combo)}, "command": [start, "U1", "U2"]})
+    finally:
+        XSH.env = saved
+    return {"kind": "bounded", "evaluations": n, "distinct_nontrivial": n, "failures": failures, "exhaustive": False,
+            "bound": "all tables over %d names x {list, return_command} x %d heads, every start name" % (len(names), len(heads)),
+            "domain": "real Aliases.get with real return_command aliases", "samples": samples}
+
+
+native_check("C15", "return-command-chains-expand-each-alias-once", "bounded", return_command_chains, doc="return_command aliases through the real Aliases.get")
